@@ -29,6 +29,7 @@ type Prelude struct {
 	funs   map[string]funSig
 	consts map[string]string
 	lemmas map[string]bool // define-funs allowed in 'use' hints (lemma statements and unfoldings)
+	defs   map[string]bool // definitional predicates (total definitions of a ghost value)
 	files  []string
 }
 
@@ -126,7 +127,7 @@ var reDeclareConst = regexp.MustCompile(`^\(declare-const\s+(\S+)\s+(.+)\)\s*$`)
 var reDefineFun = regexp.MustCompile(`^\(define-fun(?:-rec)?\s+(\S+)\s+\(`)
 
 func loadPrelude(dir string) (*Prelude, error) {
-	p := &Prelude{funs: map[string]funSig{}, consts: map[string]string{}, lemmas: map[string]bool{}}
+	p := &Prelude{funs: map[string]funSig{}, consts: map[string]string{}, lemmas: map[string]bool{}, defs: map[string]bool{}}
 	files, _ := filepath.Glob(filepath.Join(dir, "*.smt2"))
 	sort.Strings(files)
 	// prelude.smt2 first
@@ -143,6 +144,7 @@ func loadPrelude(dir string) (*Prelude, error) {
 		sc := bufio.NewScanner(fh)
 		sc.Buffer(make([]byte, 1<<20), 1<<20)
 		lemmaNext := false
+		defNext := false
 		for sc.Scan() {
 			line := sc.Text()
 			sb.WriteString(line)
@@ -150,6 +152,10 @@ func loadPrelude(dir string) (*Prelude, error) {
 			tl := strings.TrimSpace(line)
 			if strings.HasPrefix(tl, ";@lemma") || strings.HasPrefix(tl, ";@unfold") {
 				lemmaNext = true
+				continue
+			}
+			if strings.HasPrefix(tl, ";@definitional") {
+				defNext = true
 				continue
 			}
 			if strings.HasPrefix(tl, "(declare-fun ") {
@@ -178,10 +184,14 @@ func loadPrelude(dir string) (*Prelude, error) {
 					if lemmaNext {
 						p.lemmas[name] = true
 					}
+					if defNext {
+						p.defs[name] = true
+					}
 				}
 			}
 			if tl != "" && !strings.HasPrefix(tl, ";") {
 				lemmaNext = false
+				defNext = false
 			}
 		}
 		fh.Close()
